@@ -413,7 +413,7 @@ func TestVerifC17(t *testing.T) {
 	}
 	caseNo++
 	// Part 2: PRNG documents
-	total := c.Share(c.Pick(20000, 250000)) // documents; x keys x 8 accessors = pairs
+	total := c.Share(c.Pick(100000, 400000)) // documents; x keys x 8 accessors = pairs
 	const rb = 250
 	for i := 0; i < total; i += rb {
 		n := caseNo
